@@ -92,6 +92,7 @@ def flow(args):
     from ..core import setup_repo_import
     setup_repo_import()
     from buidl.psbt import PSBT
+    from buidl.tx import Tx
     kind, m, n, nin, seed, tag, full = args
     cases = []
     try:
@@ -133,6 +134,18 @@ def flow(args):
                 for c in copies[-2::-1]:
                     acc2.combine(c)
                 results[("rfold", order)] = acc2.serialize()
+        # a combiner that starts from the creator's bare PSBT (UTXOs only: no scripts, no derivations) and merges the signers' copies in
+        if len(sub) >= 1 and (len(sub) == nsign or len(sub) == min(m, nsign)):
+            bare = outcome(lambda: PSBT.create(Tx.parse(io.BytesIO(w.base.tx_obj.serialize()), network="testnet"), True, w.tx_lookup, {}, {}, {}))
+            if bare[0] == "ok":
+                accb = bare[1]
+                for s in orders[0]:
+                    c = w.clone()
+                    c.sign(w.roots[s])
+                    accb.combine(c)
+                # the unknown key-values / xpubs of the wallet's base PSBT are not in the bare one: compare after dropping nothing else
+                rb_ = outcome(accb.serialize)
+                results[("bare", orders[0])] = rb_[1] if rb_[0] == "ok" else b"combine-onto-bare-psbt-raises"
         ref = results[("seq", orders[0])]
         for key, val in results.items():
             if val != ref:
